@@ -120,3 +120,21 @@ Theorem C02_pst13_one_combined_value :
     dot chal vs1 = dot chal vs2.
 Proof. exact @ph_one_combined_value. Qed.
 Print Assumptions C02_pst13_one_combined_value.
+
+(* linear codes at the trait level: the proof determines the values - two value lists accepted for the same commitments, point,
+   proof array and transcript coincide (each accepted value is <v, a> for the vector v its proof carries) *)
+From PC Require Import Schemes.Ligero Schemes.LinCodeList Proofs.LinCodeListFacts.
+Theorem C02_lincode_proof_determines_values :
+  forall (FO : FieldOps) (FL : FieldLaws FO) tensor wf cms pt vs1 vs2 pfs tape r1 r2,
+    length vs1 = length cms -> length vs2 = length cms ->
+    lc_check_list tensor wf cms pt vs1 pfs tape = Ok (true, r1) ->
+    lc_check_list tensor wf cms pt vs2 pfs tape = Ok (true, r2) -> vs1 = vs2.
+Proof. exact @lc_check_list_values. Qed.
+Print Assumptions C02_lincode_proof_determines_values.
+
+Theorem C02_lincode_accepted_value_is_inner_product :
+  forall (FO : FieldOps) (FL : FieldLaws FO) tensor wf cm pt value pf tape rest,
+    lc_check_one tensor wf cm pt value pf tape = Ok (true, rest) ->
+    exists a b, tensor pt (cm_n_cols cm) (cm_n_rows cm) = Ok (a, b) /\ value = ip (lf_v pf) a.
+Proof. exact @lc_check_one_value. Qed.
+Print Assumptions C02_lincode_accepted_value_is_inner_product.
